@@ -117,6 +117,7 @@ type Vaxis struct {
 	cursorNext       cursorState
 	cursorLast       cursorState
 	closed           int32
+	suspended        int32
 	refresh          bool
 	kittyFlags       int
 	disableMouse     bool
@@ -425,7 +426,11 @@ func (vx *Vaxis) Close() {
 
 	defer close(vx.chQuit)
 
-	vx.Suspend()
+	// A suspended Vaxis has stopped its input loop and restored the
+	// terminal already
+	if !atomicLoad(&vx.suspended) {
+		vx.Suspend()
+	}
 	vx.console.Close()
 
 	log.Info("Renders: %d", vx.renders)
@@ -1404,6 +1409,7 @@ func (vx *Vaxis) Suspend() error {
 	signal.Stop(vx.chSigKill)
 	signal.Stop(vx.chSigWinSz)
 	vx.console.Reset()
+	atomicStore(&vx.suspended, true)
 	return nil
 }
 
@@ -1505,6 +1511,7 @@ func (vx *Vaxis) Resume() error {
 	if err != nil {
 		return err
 	}
+	atomicStore(&vx.suspended, false)
 
 	vx.enterAltScreen()
 	vx.enableModes()
